@@ -21,6 +21,16 @@ func UnmarshalJSON(src io.Reader) (Canonicalable, error) {
 	if err != nil {
 		return nil, err
 	}
+	if res == nil {
+		return nil, errors.New("unexpected delimiter")
+	}
+	// the source must contain exactly one JSON value
+	if _, err := dec.Token(); err != io.EOF {
+		if err == nil {
+			err = errors.New("unexpected data after JSON value")
+		}
+		return nil, err
+	}
 
 	return res, nil
 }
@@ -48,7 +58,8 @@ func CanonicalJSON(src io.Reader) ([]byte, error) {
 func handleNextToken(dec *json.Decoder) (Canonicalable, error) {
 	t, err := dec.Token()
 	if err == io.EOF {
-		return nil, nil
+		// no more data where a value or a closing delimiter is expected
+		return nil, io.ErrUnexpectedEOF
 	}
 	if err != nil {
 		return nil, err
@@ -119,6 +130,9 @@ func handleAttribute(dec *json.Decoder) (*Attribute, error) {
 	a.Value, err = handleNextToken(dec)
 	if err != nil {
 		return nil, err
+	}
+	if a.Value == nil {
+		return nil, errors.New("item value missing")
 	}
 	return a, nil
 }
